@@ -93,6 +93,21 @@ COPYIDX = {
     "explode(.) | document_index": (0, 0, "di"), "explode(.) | file_index": (0, 0, "fi"),
     ".a as $x | $x | file_index": (1, 0, "fi"), "select(.a) | file_index": (0, 0, "fi"), ". as $d | $d | .a | file_index": (1, 0, "fi"),
 }
+# results that come from ANOTHER file (load*) merged or combined with the current document: one result per input
+# document, separated and indexed as results of the current input
+LOADDIR = os.path.join(vlib.WORK, "c10load")
+os.makedirs(LOADDIR, exist_ok=True)
+for _n, _t in (("defaults.yml", "d: 0\nz: 9\n"), ("defaults.properties", "d = 0\n"), ("multi.yml", "m: 1\n---\nm: 2\n")):
+    with open(os.path.join(LOADDIR, _n), "w") as _f:
+        _f.write(_t)
+_LY, _LP, _LM = (os.path.join(LOADDIR, n) for n in ("defaults.yml", "defaults.properties", "multi.yml"))
+LOADSEL = {
+    "load(\"%s\") * ." % _LY: (0, "nb", "b"), ". * load(\"%s\")" % _LY: (1, 1, "b"), "load(\"%s\")" % _LY: (0, 0, "b"),
+    "load_str(\"%s\")" % _LY: (0, 0, "b"), "load_props(\"%s\")" % _LP: (0, 0, "b"), "load(\"%s\")" % _LM: (0, 0, "b"),
+    "load_props(\"%s\") * ." % _LP: (0, "nb", "b"), "{\"w\": load(\"%s\")} * ." % _LY: (0, "nb", "b"),     # merge takes the leading content of a non-null right operand
+    "(. * load(\"%s\")) | file_index" % _LY: (0, 0, "fi"), "(. * load(\"%s\")) | document_index" % _LY: (0, 0, "di"),
+}
+SEL.update(LOADSEL)
 SEL.update(COPYIDX)
 SEL.update(DATADEP)
 SEL.update(RUNTIME_PARSE)
@@ -106,8 +121,8 @@ EXPRS = [[s] for s in SEL] + [
     [".a", ".a | select(. == 3) | error(\"three\")"], ["select(.a == 1)", "tag"], [".a | select(. != null)", ".b"],
     [".a", ".a"], ["\"lit\"", ".a"],
     [".n[] as $i ireduce (0; . += $i)", ".a as $v | (0 | . += $v)"], [".a", ".n[] as $i ireduce (0; . += $i)"],
-] + [[s] for s in INPLACE] + [[s] for s in DATADEP] + [[s] for s in RUNTIME_PARSE] + [[s] for s in COPYIDX] + [[s] for s in COPYIDX]     # (a second time: weight)
-COLLECT = ("[.a]", "{\"x\": .a}", ".a + 1", ". * {\"z\": 1}") + tuple(INPLACE) + tuple(DATADEP) + tuple(RUNTIME_PARSE) + tuple(COPYIDX)   # not document-local in eval-all (collect; cross product of binary operators)
+] + [[s] for s in INPLACE] + [[s] for s in DATADEP] + [[s] for s in RUNTIME_PARSE] + [[s] for s in COPYIDX] + [[s] for s in COPYIDX] + [[s] for s in LOADSEL] + [[s] for s in LOADSEL]     # (a second time: weight)
+COLLECT = ("[.a]", "{\"x\": .a}", ".a + 1", ". * {\"z\": 1}") + tuple(INPLACE) + tuple(DATADEP) + tuple(RUNTIME_PARSE) + tuple(COPYIDX) + tuple(LOADSEL)   # not document-local in eval-all (collect; cross product of binary operators)
 IDENT = ["."]
 
 
@@ -284,6 +299,8 @@ def build_table(run, c):
         row = []
         for sel in c["sels"]:
             _, lead, kind = SEL[sel]
+            if lead == "nb":
+                lead = 1 if b != 0 else 0
             att = sel_att(sel, b)
             if b == 0:
                 res = run.measure(sel, "", js, null_input=True)
@@ -608,6 +625,8 @@ def run(chk):
             {"files": [F([], [1]), F([], []), F([], [2]), F([], []), F([], [5])], "sels": ["file_index"], "mode": "ea", "flags": {"N": True, "json": False, "nul": False}},
             {"files": [F([], []), F([], [1, 2]), F(["# c1\n"], []), F([], [5])], "sels": ["document_index", "file_index", "filename"], "mode": "ea", "flags": dict(NF)},
             {"files": [F([], []), F([], [1, 2]), F(["# c1\n"], []), F([], [5])], "sels": ["document_index", "file_index", "filename"], "mode": "e", "flags": dict(NF)},
+            {"files": [F([], [1]), F([], [2, 5])], "sels": ["load(\"%s\") * ." % _LY], "mode": "e", "flags": dict(NF)},
+            {"files": [F([S], [1, 5]), F(["# c1\n"], [2])], "sels": ["load(\"%s\")" % _LY], "mode": "e", "flags": dict(NF)},
             {"files": [F([], [15, 16])], "sels": [".p as $p | .s | test($p)"], "mode": "e", "flags": dict(NF)},
             {"files": [F([], [16]), F([], [15])], "sels": [".p as $p | .s | sub($p; \"X\")"], "mode": "e", "flags": dict(NF)},
             {"files": [F([], [17, 17])], "sels": [".a style = .s | eval(.e)"], "mode": "e", "flags": dict(NF)},
